@@ -76,6 +76,19 @@ def programs(ctx):
          O("ReleaseClients", "r"), O("CCall", h="x1"), O("ReleaseClients", "q"), O("CCall", h="x2"), O("ReleaseClients", "p")],
         [O("Fulfill", "q", kind="cap"), O("Client", "p", "f0", "x1"), O("Join", "p", to="q"), O("ReleaseClients", "p"), O("CCall", h="x1"), O("ReleaseClients", "q")],
     ]
+    # "pipelined clients handed out earlier ... are released by ReleaseClients": usable until every promise of the chain was asked
+    # (asking one promise twice counts once), unusable afterwards - whatever the order in which the chain is released
+    singles += [
+        [O("Join", "p", to="q"), O("Client", "q", "f0", "x1"), O("Fulfill", "q", kind="cap"), O("ReleaseClients", "p"), O("ReleaseClients", "p"),
+         O("CCall", h="x1"), O("ReleaseClients", "q"), O("CCall", h="x1")],
+        [O("Join", "p", to="q"), O("Client", "p", "f0", "x1"), O("Fulfill", "q", kind="cap"), O("ReleaseClients", "p"), O("CCall", h="x1"),
+         O("ReleaseClients", "q"), O("CCall", h="x1")],
+        [O("Client", "p", "f0", "x1"), O("Join", "p", to="q"), O("Fulfill", "q", kind="cap"), O("ReleaseClients", "q"), O("CCall", h="x1"),
+         O("ReleaseClients", "p"), O("CCall", h="x1")],
+        [O("Join", "r", to="p"), O("Join", "p", to="q"), O("Client", "r", "f0", "x1"), O("Fulfill", "q", kind="cap"), O("ReleaseClients", "p"),
+         O("ReleaseClients", "p"), O("ReleaseClients", "r"), O("CCall", h="x1"), O("ReleaseClients", "q"), O("CCall", h="x1")],
+        [O("Client", "p", "f0", "x1"), O("Fulfill", "p", kind="cap"), O("Client", "p", "f0", "x2"), O("ReleaseClients", "p"), O("CCall", h="x1"), O("CCall", h="x2")],
+    ]
     for i, s in enumerate(singles):
         progs.append({"id": "seq-%d" % i, "threads": [s]})
     chains = [
